@@ -148,6 +148,28 @@ CLAIMS['C17'] = dict(
          'run-time values and are declared undecided - no sound static argument in reach.',
     note='Trusted: CPython ast; spec/regfields.json (audited against the manual; one deviation corrected); sa/bitdom.py.')
 
+CLAIMS['C19'] = dict(
+    category='other', design_ref='DESIGN.md section 4 (C19)',
+    technique='who-may-write / dominance analysis over the resolved call graph and the execute() effect traces (privileged '
+              'sinks must be inside the gated PSR writers, part of exception entry, or dominated by a privilege test), with the '
+              'C12-M / C13-W / C14-R / C11-T equalities re-evaluated for the gated pieces',
+    text='No path from any of the 273 execute() bodies reaches a store of privileged state (CPSR.M/A/I/F, SPSRs, banked '
+         'registers of a named mode, system / protection / translation registers) except through CPSRWriteByInstr / '
+         'SPSRWriteByInstr (gating proved for all inputs), architectural exception entry, or under a privilege test; the set of '
+         'direct writers of privileged state is closed; LDRT/STRT-class opcodes and only they use the unprivileged accessor, '
+         'which passes privileged=False to a permission check that honours it; exception entry from User mode is exact.',
+    note='Trusted: CPython ast; the effect vocabulary / summaries of sa/flow.py, sa/effects.py; reference models of C11/C12/C14.')
+CLAIMS['C20'] = dict(
+    category='other', design_ref='DESIGN.md section 4 (C20)',
+    technique='AST inventory of module/class-level mutable objects and of every run-time write to them, nondeterminism-source '
+              'scan, def-before-use dataflow of per-step scratch attributes over the emulate_cycle call tree, dataflow rule on '
+              'the fetch-decode-execute pipeline, constructor freshness / closure rule',
+    text='Structural necessary conditions of determinism and isolation: no run-time write to shared mutable state (one known '
+         'finding: the configurations singleton reloaded by every constructor), no nondeterminism source, no per-instance '
+         'non-architectural state carried from one step to the next (scratch written before read; no memoised decode), '
+         'constructor-created state fresh and deep-copyable. Trace equality itself is a property of histories and is not decided.',
+    note='Trusted: CPython ast; absence of exec/eval/setattr in the package.')
+
 PENDING = 'checker not armed yet in this session (under construction); nothing is claimed for it until its rules run clean'
 
 checks = []
